@@ -113,3 +113,83 @@ def _dc_contract(names):
 do_compute_1 = _dc_contract(["a"])
 do_compute_2 = _dc_contract(["a", "b"])
 do_compute_3 = _dc_contract(["a", "b", "c"])
+
+
+# --------------------------------------------------------------------------------------
+# Plugin._fetch_chunk: the next chunk of one dependency is appended to what is buffered for it
+# --------------------------------------------------------------------------------------
+GETITEM = z3.Function("getitem", V, V, V)
+ATTR_BUF = z3.Function("attr:input_buffer", V, V)
+CONCAT2 = z3.Function("fn:concatenate2", V, V, V, V)      # concatenate([first, second], allow_superrun)
+NOTHING = z3.Const("nothing_yet", V)
+
+
+def _fc_buffer(a_self, d):
+    from pyvc.ops import SymOps
+    S = SymOps()
+    return S.getitem(S.attr(a_self, "input_buffer"), d)
+
+
+def _fc_next(eng, args, kw, st, fr, k, node):
+    """next(iters[d]): the source of this dependency hands over its next chunk, or is exhausted"""
+    src = eng.to_v(args[0])
+    g = dict(st.ghost)
+    eng.oblige("wiring", "the chunk is taken from the iterator of the data type asked for (iters[d]), once", st,
+               z3.And(src == GETITEM(st.env["iters"].t, st.env["d"].t), z3.Not(g["asked"])), node)
+    g["asked"] = z3.BoolVal(True)
+    s_end = St(st.env, st.heap, st.pc, {**g, "ended": z3.BoolVal(True)})
+    fr.on_raise(Exc("StopIteration"), s_end)
+    new = eng.fresh("next_chunk", "V")
+    g["fetched"] = new
+    return k(Opq(new), St(st.env, st.heap, st.pc, g))
+
+
+def _fc_concat(eng, args, kw, st, fr, k, node):
+    """strax.Chunk.concatenate([buffered, new], self.allow_superrun) - its own contract is proved for two chunks (C07)"""
+    lst = args[0]
+    if not isinstance(lst, (list, tuple)) or len(lst) != 2:
+        eng.oblige("contract-shape", "concatenate is handed exactly [what is buffered, the new chunk]", st, z3.BoolVal(False), node)
+        return None
+    first, second = eng.to_v(lst[0]), eng.to_v(lst[1])
+    allow = eng.to_v(args[1] if len(args) > 1 else kw.get("allow_superrun"))
+    return k(Opq(CONCAT2(first, second, allow)), st)
+
+
+def _fc_store(eng, st, key, v, node):
+    """self.input_buffer[key] = v"""
+    g = dict(st.ghost)
+    eng.oblige("frame", "only the buffer of the data type asked for is replaced, and only once", st,
+               z3.And(eng.to_v(key) == st.env["d"].t, z3.Not(g["stored_flag"])), node)
+    g["stored_flag"] = z3.BoolVal(True)
+    g["stored"] = eng.to_v(v)
+    return St(st.env, st.heap, st.pc, g)
+
+
+def _fc_short(S, a):
+    """the buffer of d ends before the time the caller needs (only asked when a time was given)"""
+    from pyvc.engine import NONE
+    end = S.attr(_fc_buffer(a.self, a.d), "end")
+    return z3.And(a.check_end_not_before != NONE, V2INT(end) < V2INT(a.check_end_not_before))
+
+
+fetch_chunk = REG.add(Contract(
+    F, "Plugin._fetch_chunk",
+    params=dict(self="V", d="V", iters="V", check_end_not_before="V"),
+    ensures=lambda S, a, r: [
+        ("answers True exactly when the source handed over a chunk",
+         S.Iff(r, S.And(a.ghost.asked, S.Not(a.ghost.ended)))),
+        ("then the buffer of d is what was buffered followed by the new chunk - nothing of either is dropped, the order is kept",
+         S.Implies(r, S.And(a.ghost.stored_flag,
+                            a.ghost.stored == CONCAT2(_fc_buffer(a.self, a.d), a.ghost.fetched,
+                                                      S.attr(a.self, "allow_superrun"))))),
+        ("an exhausted source leaves the buffer as it was, and False is only answered if the buffer reaches the time needed",
+         S.Implies(S.Not(r), S.And(a.ghost.ended, S.Not(a.ghost.stored_flag), S.Not(_fc_short(S, a)))))],
+    raises={"RuntimeError": lambda S, a: _fc_short(S, a)},
+    exc_ensures=lambda S, a, exc: [("the error is raised only for an exhausted source, and the buffer is left as it was",
+                                    S.And(a.ghost.ended, S.Not(a.ghost.stored_flag)))],
+    returns="bool",
+    ghost={"asked": z3.BoolVal(False), "ended": z3.BoolVal(False), "fetched": NOTHING, "stored": NOTHING,
+           "stored_flag": z3.BoolVal(False)},
+    calls={"next": _fc_next, "strax.Chunk.concatenate": _fc_concat},
+    store_hooks={"self.input_buffer": _fc_store},
+))
